@@ -12,13 +12,17 @@
    in every reachable state the collector's channel and the signal table hold only such entities, and a signal is
    prepared by no command other than a registration in the Cleanup / Revokable modes — so a reactor that is only ever
    registered in persistent mode is never put on the channel, whatever is revoked, despawned or collected around it.
+   Proved for whole executions (QuietSpec, induction over the interpreter): collection is timely — whenever the
+   system-command runner returns (run, abort or postponement) and at the end of every frame the collector's channel is
+   empty, so a reactor whose last reference was dropped during a tree is despawned before the tree ends (together with
+   "a collection leaves every collected entity dead" and "the last reference sends the reactor once").
    NOT proved: the global reference count — that the number of live references equals the number of registrations,
    in-flight registration commands and pending despawn reactions of the reactor at every point of every run, hence
    "exists as long as ... and is collected by the first collection after ...".  That rests on the correspondence
    (lifetime profile: every mode, empty bundles, bundles naming dead entities, every order of revoke / fire / despawn /
    collect; live entities, state drops and table sizes compared after every op). *)
 From Cobweb Require Import Machine.
-From CobwebProofs Require Import RunnerInv LifetimeSpec WorldReactorSpec SigSpec SigInvSpec.
+From CobwebProofs Require Import RunnerInv LifetimeSpec WorldReactorSpec SigSpec SigInvSpec QuietSpec.
 
 Theorem persistent_handle_is_never_counted_partial : forall s w, handle_drop (HPersist s) w = w /\ handle_clone (HPersist s) w = w.
 Proof. exact persistent_handle_is_inert. Qed.
@@ -58,6 +62,11 @@ Theorem despawn_drops_the_system_state_partial : forall e w, is_alive e w = true
   alookup e (cbs (despawn e w)) = None.
 Proof. exact despawn_drops_callback. Qed.
 
+Theorem dropped_reactors_are_collected_by_the_end_of_the_tree : forall (P : program) f t su cl w w', exec P f (IRunner t su cl) w = Ok w' -> gc_chan w' = [].
+Proof. exact collector_has_run_when_a_tree_returns. Qed.
+Theorem dropped_reactors_are_collected_by_the_end_of_the_frame : forall (P : program) f i bs w w', exec P f (ITop i (TFrame bs)) w = Ok w' -> gc_chan w' = [].
+Proof. exact collector_has_run_when_a_frame_ends. Qed.
+
 (* non-vacuity: a revokable reactor on a broadcast is revoked: it is collected by the collection that follows and its
    state is dropped; a persistent reactor registered on the same broadcast survives everything *)
 Definition ex_prog : program :=
@@ -84,3 +93,5 @@ Print Assumptions last_reference_sends_the_reactor_once_partial.
 Print Assumptions dropping_a_handle_despawns_nothing_partial.
 Print Assumptions collection_drains_the_channel_partial.
 Print Assumptions despawn_drops_the_system_state_partial.
+Print Assumptions dropped_reactors_are_collected_by_the_end_of_the_tree.
+Print Assumptions dropped_reactors_are_collected_by_the_end_of_the_frame.
